@@ -805,6 +805,8 @@ package rosmar
 //@   flag trusted=reads-designDocs-and-views-tables
 //@ fn (*Collection).forgetCachedViews
 //@   modular
+//@   loop 1 invariant [C12:forgetCachedViews.loop] true
+//@   ensures [C20:forgetCachedViews.unlocked] any: nolocks()
 //@ fn (*Collection).PutDDoc
 //@   requires ddoc != nil
 //@   loop 1001 invariant [C12:PutDDoc.views-loop] true
